@@ -109,7 +109,7 @@ CLAIMED = {
              "exactly the present ones are published, in order, once each, with the value held now or the too-large Error; absent "
              "skipped; completion only when nothing remains; with enough slots everything is published and the client is idle; the "
              "three entry points root the walk with no response topic; API dump refused while busy. Run: as C07, with dump-heavy "
-             "histories (values beyond the transmit buffer, Option toggles, withheld acks, concurrent requests). source_iter_dump_is_model: one pass of the loop of iter_dump as TRANSLATED from miniconf_mqtt/src/lib.rs on every run (the three-way classification of the publish result as the source's match sorts it; publication building skeleton-checked), run as written, equals the model's dumpPump.",
+             "histories (values beyond the transmit buffer, Option toggles, withheld acks, concurrent requests). source_iter_dump_is_model: one pass of the loop of iter_dump as TRANSLATED from miniconf_mqtt/src/lib.rs on every run (the three-way classification of the publish result as the source's match sorts it; publication building skeleton-checked), run as written, equals the model's dumpPump. source_dump_api_is_model: MqttClient::dump(path) as translated equals the model's apiDump (alive()/subscribe() skeleton-checked in the same run).",
         note="Retransmissions (DUP) are minimq's and excluded as the property allows. F4 (oversize value panicked) fixed in /repo.",
         tech="Lean 4 proofs (list induction with an element-wise relation) + hook-driven refinement check + packet-log oracle"),
     "C13": dict(
